@@ -1,6 +1,6 @@
 (* C12 — writing preserves every atom's substituent order. Statements only. *)
 From Coq Require Import List NArith Bool.
-Require Import P.Spec.Graph P.Model.Base P.Model.Walk P.Model.Builder P.Proofs.D0 P.Proofs.D1 P.Proofs.D2 P.Proofs.D7 P.Proofs.C12_Final.
+Require Import P.Spec.Graph P.Spec.Roundtrip P.Model.Base P.Model.Walk P.Model.Builder P.Proofs.D0 P.Proofs.D1 P.Proofs.D2 P.Proofs.D7 P.Proofs.C12_Final P.Proofs.DfsOrderClosed.
 
 (* every well-formed adjacency list that the traversal accepts (kinds outside C06's known class): feeding the
    traversal's events to the builder gives, at every atom (renamed by the visiting order phi), exactly the original
@@ -10,4 +10,17 @@ Theorem C12_substituent_order_preserved : forall g h, wf g = true -> safe_graph 
   exists gh g', bld h = BOk g' /\ length g' = length g /\ NoDup (order gh) /\ (forall x, In x (order gh) <-> x < length g) /\
     forall x, x < length g -> nth_error g' (phi gh x) = Some {| akind := kind_final g gh x; bonds := map (rename gh) (arrival_first g gh x) |}.
 Proof. exact C12_from_wf. Qed.
+(* closed form: the rebuilt graph IS the specification's expected graph -- components start at the lowest-numbered unvisited
+   atom, children are visited in list order (plain recursive depth-first search of Spec/Roundtrip.v), atom x becomes
+   atom rank(x), its bond list is the original one with the bond to its parent moved to the front *)
+Theorem C12_rebuilt_graph_closed_form : forall g h, wf g = true -> safe_graph g -> walk g = (WOk, h) -> bld h = BOk (expected_roundtrip g).
+Proof. exact C12_closed_form. Qed.
+Theorem C12_visiting_order_is_depth_first_in_list_order : forall g h, wf g = true -> safe_graph g -> walk g = (WOk, h) ->
+  exists gh g',
+    (bld h = BOk g' /\ length g' = length g /\ NoDup (order gh) /\ (forall x, In x (order gh) <-> x < length g) /\
+     forall x, x < length g -> nth_error g' (phi gh x) = Some {| akind := kind_final g gh x; bonds := map (rename gh) (arrival_first g gh x) |}) /\
+    map (fun x => (x, par gh x)) (order gh) = dfs_all g.
+Proof. exact visiting_order_is_dfs. Qed.
 Print Assumptions C12_substituent_order_preserved.
+Print Assumptions C12_rebuilt_graph_closed_form.
+Print Assumptions C12_visiting_order_is_depth_first_in_list_order.
